@@ -133,6 +133,16 @@ func (s *Session) Update(msg *message.ConnectMessage) error {
 		return err
 	}
 
+	// The will belongs to the connection: take it from the new CONNECT message
+	s.Will = nil
+	if s.Cmsg.WillFlag() {
+		s.Will = message.NewPublishMessage()
+		s.Will.SetQoS(s.Cmsg.WillQos())
+		s.Will.SetTopic(s.Cmsg.WillTopic())
+		s.Will.SetPayload(s.Cmsg.WillMessage())
+		s.Will.SetRetain(s.Cmsg.WillRetain())
+	}
+
 	return nil
 }
 
